@@ -81,13 +81,21 @@ struct C30 {
     rt: tokio::runtime::Runtime,
     data: Vec<u8>,
     stores: HashMap<u64, Store>,
+    reader: Arc<dyn lance_io::traits::Reader>,
 }
 
 impl C30 {
     fn new() -> Self {
         let rt = tokio::runtime::Builder::new_current_thread().enable_all().build().unwrap();
         let data: Vec<u8> = (0..FILE_LEN).map(file_byte).collect();
-        Self { rt, data, stores: HashMap::new() }
+        let d2 = data.clone();
+        let reader: Arc<dyn lance_io::traits::Reader> = rt.block_on(async move {
+            let os = ObjectStore::memory();
+            let path = Path::from("f.bin");
+            os.put(&path, &d2).await.unwrap();
+            Arc::from(os.open(&path).await.unwrap())
+        });
+        Self { rt, data, stores: HashMap::new(), reader }
     }
 
     fn make_store(&self, bs: u64, io_parallelism: usize, buffer: u64) -> Store {
@@ -355,7 +363,7 @@ impl Prop for C30 {
     fn gen_case(&mut self, r: &mut Rng, _tier: Tier, idx: usize) -> Vec<String> {
         let default_max = *lance_io::object_store::DEFAULT_MAX_IOP_SIZE;
         match idx % 4 {
-            2 => c30_queue::gen_queue_case(r),
+            2 => c30_queue::gen_queue_case(r, &self.reader),
             3 => c30_queue::gen_conc_case(r, default_max),
             k => {
                 let small = k == 1;
@@ -389,7 +397,7 @@ impl Prop for C30 {
             let toks: Vec<&str> = line.split(' ').filter(|t| !t.is_empty()).collect();
             let out = match toks.first().copied() {
                 Some("req") | Some("ereq") => self.exec_req(&toks, n, &mut res),
-                Some("q") => c30_queue::exec_q(&mut q, &self.rt, &self.data, &toks, n, &mut res),
+                Some("q") => c30_queue::exec_q(&mut q, &self.reader, &toks, n, &mut res),
                 Some("conc") => c30_queue::exec_conc(self, &toks, n, &mut res),
                 _ => "bad-op".into(),
             };
@@ -402,9 +410,6 @@ impl Prop for C30 {
 impl C30 {
     pub fn rt(&self) -> &tokio::runtime::Runtime {
         &self.rt
-    }
-    pub fn data(&self) -> &[u8] {
-        &self.data
     }
     pub fn store_with(&self, bs: u64, io_parallelism: usize, buffer: u64) -> (FileScheduler, Arc<ScanScheduler>, u64) {
         let st = self.make_store(bs, io_parallelism, buffer);
